@@ -4,6 +4,7 @@ import (
 	"bytes"
 	"fmt"
 	"math/rand"
+	"strings"
 
 	"github.com/gabriel-vasile/mimetype"
 
@@ -181,10 +182,16 @@ func genHistory(r *rand.Rand, base *lib.Tree, k int, seeds [][]byte, upperNames 
 			op.Ext = fmt.Sprintf(".v%d", extCounter%97)
 		}
 		na := r.Intn(3)
+		if !strings.Contains(op.MIME, "erif") && na == 0 {
+			na = 1 // a format that re-uses an existing name gets at least one alias of its own
+		}
 		for a := 0; a < na; a++ {
 			op.Aliases = append(op.Aliases, fmt.Sprintf("application/x-verif-alias-%d-%d", extCounter, a))
 		}
 		mine = append(mine, op.MIME)
+		// later operations may reach this format through one of its aliases (the only
+		// unambiguous handle when its main name is shared with another format)
+		mine = append(mine, op.Aliases...)
 		ops = append(ops, op)
 	}
 	return ops
